@@ -84,7 +84,8 @@ func checkHilbert(c hilbCase) *vk.Failure {
 	// FFT of a spectrum of 1-norm <= 2n||x||_1, division by n:
 	// 2*tol1 + tol(2||x||_1) = 4*tol1, taken with a factor two.
 	x1 := norm1(orig)
-	d := dsCtx{c: dsCase{N: n, Kind: c.Kind, P: c.P, Seed: c.Seed, Idx: c.Idx}}
+	// (CmplxFFT: no allowance for the twiddle recurrences of the real passes)
+	d := dsCtx{c: dsCase{N: n, Kind: c.Kind, P: c.P, Seed: c.Seed, Idx: c.Idx}, strict: true}
 	tol := 8 * d.tol(n, 1, x1)
 	tn := table(n)
 	g := refHilbertKernel(n, tn)
